@@ -28,7 +28,7 @@ import (
 // those observations plus the sizes the harness itself constructed.
 
 type c10Acct struct {
-	*c10Stats             // statistics of the current phase
+	*c10Stats          // statistics of the current phase
 	req, resp c10Stats // request direction (until the backend has read the request) / response direction
 }
 
